@@ -493,8 +493,8 @@ HARNESS_BINS = ["c15", "c15bb"]
 
 def extra_stage(tier, rng, work):
     """Black-box connection tier: a real worker (HTTPS listener, ALPN h2, flood thresholds of 8 per window),
-    one scripted raw H2 client over TLS per scenario (62 in quick, more in thorough) in every connection state
-    (before the SETTINGS exchange, ready, stream open, half-closed, closed, after GOAWAY), all in parallel;
+    one scripted raw H2 client over TLS per scenario (77 in quick, more in thorough; HTTP/1 and h2c backends) in every connection state
+    (before the SETTINGS exchange, ready, stream open, half-closed, closed, after the client's GOAWAY), all in parallel, then a graceful-shutdown phase (SoftStop: proxy-initiated GOAWAY with an idle connection and an upload in flight);
     oracle: the prescribed GOAWAY / RST_STREAM code (or handled: PING still acknowledged), release of the
     connection after a connection error, worker thread alive, a concurrent well-behaved probe still served."""
     res = dict(failures=[], viols=[], coverage={})
